@@ -20,10 +20,8 @@ Section EnvProofs.
 
   Definition env_clean (e : env) : Prop := forall w, clean A (children w) (f w) (e w).
 
-  (* calls that succeed, or fail at the root of their traversal (C15's side condition) *)
-  Definition api_ok (c : api_call) : Prop :=
-    enough_fuel (children (fst c)) (snd c) <= fuel /\
-    root_fail_only A (children (fst c)) (f (fst c)) (snd c).
+  (* the only requirement on a call (succeeding or raising): the loop is given enough fuel *)
+  Definition api_ok (c : api_call) : Prop := enough_fuel (children (fst c)) (snd c) <= fuel.
 
   Lemma env_init_clean : env_clean env_init.
   Proof. intros w. apply clean_init. Qed.
@@ -31,8 +29,8 @@ Section EnvProofs.
   Lemma env_call_clean e c : env_clean e -> api_ok c -> env_clean (fst (env_call e c)).
   Proof.
     intros He Hc w. unfold EnvHistory.env_call.
-    pose proof (do_call_clean A (children (fst c)) (children_lt (fst c)) (f (fst c)) (early (fst c)) fuel
-                  (e (fst c)) (tt, snd c) (He (fst c)) Hc) as H.
+    pose proof (proj1 (do_call_clean A (children (fst c)) (children_lt (fst c)) (f (fst c)) (early (fst c)) fuel
+                  (e (fst c)) (tt, snd c) (He (fst c)) Hc)) as H.
     unfold WalkerFail.do_call in H. cbn [fst snd] in H.
     destruct (walk A (children (fst c)) (f (fst c)) (early (fst c)) false fuel (e (fst c)) (snd c)) as [s a].
     cbn [fst] in *. unfold EnvHistory.upd_env. destruct (Nat.eqb_spec w (fst c)) as [->|Hne]; [exact H|apply He].
@@ -64,7 +62,7 @@ Section EnvProofs.
     ans_equiv (result_after A children f early fuel h q) (result_fresh A children f early fuel q).
   Proof.
     intros h q Hh Hq. unfold result_after, result_fresh.
-    apply env_call_indep; [apply env_run_clean; [apply env_init_clean|exact Hh] | apply env_init_clean | apply Hq].
+    apply env_call_indep; [apply env_run_clean; [apply env_init_clean|exact Hh] | apply env_init_clean | exact Hq].
   Qed.
 
   (* repeat_same: a repeated query returns the memoised value itself and invokes no callback *)
@@ -79,7 +77,7 @@ Section EnvProofs.
     assert (H0 : env_clean e0) by (apply env_run_clean; [apply env_init_clean|exact Hh]).
     unfold result_after in Hr. fold e0 in Hr. cbn zeta. unfold EnvHistory.env_call in *.
     set (w := fst q) in *. set (root := snd q) in *.
-    destruct Hq as [Hfuel _]. fold w root in Hfuel.
+    pose proof Hq as Hfuel. unfold api_ok in Hfuel. fold w root in Hfuel.
     assert (HF : F A (children w) (f w) root = Some v).
     { pose proof (walk_refines A (children w) (children_lt w) (f w) (early w) false (e0 w) root fuel) as R.
       destruct (walk A (children w) (f w) (early w) false fuel (e0 w) root) as [s a] eqn:E.
@@ -114,18 +112,13 @@ Section OneShotHistory.
   Local Notation do_call := (do_call A P children f early true fuel).
   Local Notation run_calls := (run_calls A P children f early true fuel).
 
-  Definition os_ok (c : call P) : Prop :=
-    enough_fuel children (snd c) <= fuel /\
-    (F A children (f (fst c)) (snd c) = None -> children (snd c) = []).
-
-  Lemma pristine_clean w p : pristine A w -> clean A children (f p) w.
-  Proof. intros [Hs Hm]. split; [exact Hs|]. rewrite Hm. apply Mok_empty. Qed.
+  Definition os_ok (c : call P) : Prop := enough_fuel children (snd c) <= fuel.
 
   Lemma run_pristine : forall h w, pristine A w -> Forall os_ok h -> pristine A (fst (run_calls w h)).
   Proof.
     induction h as [|c h IH]; intros w Hw Hh; cbn; [exact Hw|].
     inversion Hh as [|? ? Hc Hh']; subst.
-    pose proof (oneshot_pristine A P children children_lt f early fuel w c Hw (proj1 Hc) (proj2 Hc)) as H1.
+    pose proof (oneshot_pristine A P children children_lt f early fuel w c Hw Hc) as H1.
     destruct (do_call w c) as [w1 a]. cbn [fst] in H1. specialize (IH w1 H1 Hh').
     destruct (run_calls w1 h) as [w2 l]. exact IH.
   Qed.
@@ -133,10 +126,10 @@ Section OneShotHistory.
   Theorem oneshot_history_independent : forall h q, Forall os_ok h -> os_ok q ->
     ans_equiv (snd (do_call (fst (run_calls (init A) h)) q)) (fresh_answer A P children f early true fuel q).
   Proof.
-    intros h q Hh [Hfuel _].
+    intros h q Hh Hfuel. unfold os_ok in Hfuel.
     assert (Hp : pristine A (fst (run_calls (init A) h))) by (apply run_pristine; [split; reflexivity|exact Hh]).
     set (w := fst (run_calls (init A) h)) in *.
-    pose proof (pristine_clean w (fst q) Hp) as C1.
+    pose proof (pristine_clean A P children f w (fst q) Hp) as C1.
     pose proof (clean_init A children (f (fst q))) as C2.
     unfold fresh_answer, WalkerFail.do_call.
     destruct (F A children (f (fst q)) (snd q)) as [v|] eqn:HF.
